@@ -137,3 +137,53 @@ Proof.
       rewrite A in A'. inv A'. eapply IH; eauto.
 Qed.
 End State.
+
+Section Replace.
+Variable ev : env.
+Variable P : bool.
+Notation cnode := (cnode ev P).
+Notation node_ok := (node_ok ev P).
+Notation Conforms := (Conforms ev P).
+
+Lemma conforms_update_at : forall st ps f m,
+  Conforms st -> get_at st ps = Some m -> cnode (f m) -> same_face m (f m) -> is_missing (f m) = is_missing m ->
+  Conforms (update_at st ps f).
+Proof.
+  intros st ps f m C G Cf S M. unfold update_at. unfold get_at in G.
+  destruct (get_root st (fst ps)) as [t|] eqn:R; [|discriminate].
+  apply conforms_set_root; auto. simpl. eapply cnode_update_in; eauto. eapply conforms_get_root; eauto.
+Qed.
+(* a function that keeps every conforming node conforming, with its face *)
+Lemma conforms_update_at_total : forall st ps f,
+  Conforms st -> (forall m, cnode m -> cnode (f m) /\ same_face m (f m) /\ is_missing (f m) = is_missing m) ->
+  Conforms (update_at st ps f).
+Proof.
+  intros st ps f C H. destruct (get_at st ps) as [m|] eqn:G.
+  - destruct (H m (conforms_get_at _ _ _ _ _ C G)) as (A & B & D). eapply conforms_update_at; eauto.
+  - unfold update_at. unfold get_at in G. destruct (get_root st (fst ps)) as [t|] eqn:R; auto.
+    rewrite update_in_none by auto. apply conforms_set_root; auto. simpl. eapply conforms_get_root; eauto.
+Qed.
+
+Lemma conforms_replace_items : forall st st1 cp cid ck pa pt fl its its',
+  Conforms st1 -> get_at st cp = Some (Node cid ck pa pt fl its) ->
+  (get_root st1 (fst cp) = None \/ get_root st1 (fst cp) = get_root st (fst cp)) ->
+  node_ok ck fl its' -> Forall (fun kc => cnode (snd kc)) its' ->
+  Conforms (update_at st1 cp (set_items its')).
+Proof.
+  intros st st1 cp cid ck pa pt fl its its' C G [E|E] NO F.
+  - unfold update_at. rewrite E. auto.
+  - eapply conforms_update_at with (m := Node cid ck pa pt fl its); eauto.
+    + unfold get_at in *. rewrite E. auto.
+    + simpl set_items. apply cnode_node. auto.
+    + simpl. auto.
+Qed.
+
+(* a node that does not check its members conforms whatever its members are *)
+Lemma node_ok_any : forall i k pa pt fl its its',
+  checks_members ev (Node i k pa pt fl its) = false -> node_ok k fl its -> node_ok k fl its'.
+Proof.
+  intros i k pa pt fl its its' CM H. unfold SymCoreTypedConf.node_ok in *. unfold checks_members, node_spec in CM.
+  destruct (spec_at ev (f_spec fl)) as [sp|]; auto.
+  destruct k; destruct sp; try contradiction; try discriminate; auto; destruct schema; try contradiction; try discriminate; auto.
+Qed.
+End Replace.
